@@ -171,6 +171,10 @@ Examples:
 			recoveredResults, recoveryErr := searchRecovery.RecoverFromSearchFailure(query, nil, db)
 			if recoveryErr == nil && len(recoveredResults) > 0 {
 				results = recoveredResults
+				// the recovery searches collect every match: keep to the limit in force
+				if len(results) > cfg.MaxResults {
+					results = results[:cfg.MaxResults]
+				}
 			}
 		}
 
